@@ -321,6 +321,95 @@ def parse_instruction_unit(isa):
     return unit
 
 
+def process_operand_unit(isa):
+    """P: process_operand (real code) - the dispatch from the grammar's operand dictionary to the post-processing routine, and the
+    small routines themselves (register, sp, label, identifier, directive, condition, prefetch) on the operand shapes the
+    grammars deliver: a memory / immediate / register-list operand is handed to exactly its routine (whose contract is a unit of
+    its own) and that routine's result is returned unchanged; a register operand keeps its name as written (AArch64: prefix, shape
+    and predication lower-cased, lanes and index kept; 'sp' becomes x-prefixed sp); identifier, label, directive, condition and
+    prefetch operands keep their fields."""
+    def unit(res):
+        cls = "ParserX86ATT" if isa == "x86" else "ParserAArch64"
+        ex = Engine([REPO + "/" + f for f in PFILES + [PX if isa == "x86" else PA]])
+        ex.no_init.add(cls)
+        heavy = ["process_memory_address", "process_immediate"] + ([] if isa == "x86" else ["resolve_range_list", "process_register_list"])
+        mem = {"base": {"name": "rax"}} if isa == "x86" else {"base": {"prefix": "x", "name": "0"}}
+        cases = [("memory", {"memory": mem}), ("immediate", {"immediate": {"value": "5"}}), ("immediate-identifier", {"immediate": {"identifier": {"name": ".L4"}}})]
+        if isa == "x86":
+            cases += [("register", {"register": {"name": nm}}) for nm in ("rax", "RAX", "ymm13", "Zmm31")]
+            cases += [("identifier", {"identifier": {"name": ".L3"}}), ("label", {"label": {"identifier": {"name": "loop"}, "name": [{"name": "loop"}]}}), ("label+comment", {"label": {"identifier": {"name": "loop"}, "name": [{"name": "loop"}], "comment": ["x"]}}),
+                      ("directive", {"directive": {"name": "byte", "parameters": ["100", "103"]}}), ("directive-bare", {"directive": {"name": "text"}})]
+        else:
+            cases += [("register", {"register": r}) for r in ({"prefix": "x", "name": "0"}, {"prefix": "W", "name": "zr"}, {"prefix": "v", "name": "1", "lanes": "4", "shape": "S"},
+                                                             {"prefix": "v", "name": "3", "shape": "s", "index": "1"}, {"prefix": "p", "name": "0", "predication": "Z"}, {"prefix": "z", "name": "31", "shape": "d"})]
+            cases += [("sp", {"register": {"prefix": None, "name": nm}}) for nm in ("sp", "SP")]
+            cases += [("list", {"register": {"prefix": "v", "name": "1", "lanes": "4", "shape": "s", "list": ["v0.4s", "v1.4s"]}}),
+                      ("range", {"register": {"prefix": "v", "name": "3", "lanes": "4", "shape": "s", "range": ["v0.4s", "v3.4s"]}}),
+                      ("identifier", {"identifier": {"name": "sym", "relocation": ":lo12:"}}), ("label", {"label": {"name": {"name": "loop"}}}),
+                      ("directive", {"directive": {"name": "word", "parameters": ["1"]}}), ("condition", {"condition": "ne"}),
+                      ("prefetch", {"prfop": {"type": ["PLD"], "target": ["L1"], "policy": ["KEEP"]}})]
+        for kind, operand in cases:
+            def run(operand=operand):
+                calls = []
+                import copy
+                for nm in heavy:
+                    def stub(ex_, so, a, kw, nm=nm):
+                        r = SObj("Processed", by=nm, arg=a[0])
+                        calls.append((nm, a[0], r))
+                        return r
+                    ex.abstract[nm] = stub
+                op = copy.deepcopy(operand)
+                ex.extra.update(calls=calls, op=op)
+                return ex.call_method(cls, "process_operand", SObj(cls), [op])
+
+            paths = ex.explore(run, [])
+
+            def post(v, p, kind=kind, operand=operand):
+                calls, op = p.extra["calls"], p.extra["op"]
+                F = lambda o, k: o.fields["_" + k]
+                if kind == "memory":
+                    return len(calls) == 1 and calls[0][0] == "process_memory_address" and calls[0][1] is op["memory"] and v is calls[0][2]
+                if kind.startswith("immediate"):
+                    return len(calls) == 1 and calls[0][0] == "process_immediate" and calls[0][1] is op["immediate"] and v is calls[0][2]
+                if kind in ("list", "range"):
+                    return ([c[0] for c in calls] == ["process_register_list", "resolve_range_list"] and calls[0][1] is op["register"]
+                            and calls[1][1] is calls[0][2] and v is calls[1][2])
+                if calls:
+                    return False
+                r = operand.get("register")
+                if kind == "register":
+                    if not (isinstance(v, SObj) and v.cls == "RegisterOperand") or F(v, "name") != r["name"]:
+                        return False
+                    if isa == "x86":
+                        return F(v, "prefix") is None
+                    low = lambda x: x.lower() if x is not None else None
+                    return (F(v, "prefix") == r["prefix"].lower() and F(v, "shape") == low(r.get("shape")) and F(v, "lanes") == r.get("lanes")
+                            and F(v, "index") == r.get("index") and F(v, "predication") == low(r.get("predication")))
+                if kind == "sp":
+                    return isinstance(v, SObj) and v.cls == "RegisterOperand" and F(v, "prefix") == "x" and F(v, "name").lower() == "sp"
+                if kind == "identifier":
+                    i = operand["identifier"]
+                    return isinstance(v, SObj) and v.cls == "IdentifierOperand" and F(v, "name") == i["name"] and (isa == "x86" or F(v, "relocation") == i.get("relocation"))
+                if kind.startswith("label"):
+                    lab = operand["label"]
+                    nm = lab["name"][0]["name"] if isa == "x86" else lab["name"]["name"]
+                    return isinstance(v, tuple) and v[0].cls == "LabelOperand" and F(v[0], "name") == nm and v[1] == lab.get("comment")
+                if kind.startswith("directive"):
+                    d = operand["directive"]
+                    return isinstance(v, tuple) and v[0].cls == "DirectiveOperand" and F(v[0], "name") == d["name"] and F(v[0], "parameters") == d.get("parameters", [])
+                if kind == "condition":
+                    return isinstance(v, SObj) and v.cls == "ConditionOperand" and F(v, "ccode") == "NE"
+                if kind == "prefetch":
+                    pf = operand["prfop"]
+                    return isinstance(v, SObj) and v.cls == "PrefetchOperand" and (F(v, "type_id"), F(v, "target"), F(v, "policy")) == (pf["type"], pf["target"], pf["policy"])
+                return False
+
+            res.add_paths(paths, post, kind=f"{isa}/{kind}")
+        return res
+
+    return unit
+
+
 def range_expansion_unit(res):
     """P (exhaustive over the finite domain): ParserAArch64.resolve_range_list for EVERY pair of register numbers 0..31 as range
     ends (1024 pairs) x {no element index, [1]}: the members are start, start+1, ... (mod 32) up to end - in that order, each
@@ -586,6 +675,7 @@ def units_for(prop):
         Unit(f"{prop}/parse_file", parse_file_unit, "P", [(BP, "BaseParser.parse_file")]),
         Unit(f"{prop}/parse_line/classification", parse_line_unit(isa), "P", [(PX if isa == "x86" else PA, ("ParserX86ATT" if isa == "x86" else "ParserAArch64") + ".parse_line")]),
         Unit(f"{prop}/parse_instruction/operand-order", parse_instruction_unit(isa), "P", [(PX if isa == "x86" else PA, ("ParserX86ATT" if isa == "x86" else "ParserAArch64") + ".parse_instruction")]),
+        Unit(f"{prop}/process_operand/dispatch-and-small-operands", process_operand_unit(isa), "P", [(PX if isa == "x86" else PA, ("ParserX86ATT" if isa == "x86" else "ParserAArch64") + ".process_operand")]),
     ] + ([Unit("C09/operand-post-processing", x86_mem_unit, "P", [(PX, "ParserX86ATT.process_memory_address"), (PX, "ParserX86ATT.process_immediate")])] if isa == "x86" else
          [Unit(f"C10/operand-post-processing/base={b}/index={i}", a64_mem_unit_for((b,), (i,)), "P", [(PA, "ParserAArch64.process_memory_address")])
           for b in ("x", "sp", "zr") for i in ("none", "x", "w")]) + [
